@@ -7,6 +7,7 @@ b0,...,b_{m-1},rest  with m comma-free blocks and an arbitrary rest.  Blocks and
 buffers of symbolic length.  `CommaBytes` implements exactly the operations the decoders use on the
 datagram (==, `in`, split(b",", m)) by these structural rules.
 """
+from pyvc.values import unmodelled as _unmodelled  # noqa: E402
 import z3
 
 from pyvc import aio, sym
@@ -87,7 +88,7 @@ class CommaBytes:
             return Builtin("bytes.split", split)
         if name == "hex":
             return Builtin("bytes.hex", lambda *a, **k: Opaque("hex"))
-        raise it.exc("AttributeError", name)
+        raise _unmodelled(self, name)
 
 
 def comma_free(h, view):
@@ -237,7 +238,7 @@ class _Transport:
                 self.closed += 1
                 self.w.event("transport.close")
             return Builtin("transport.close", close)
-        raise it.exc("AttributeError", name)
+        raise _unmodelled(self, name)
 
 
 @oset("discovery.search", ["C18"], [DISC + ":AirTouchDiscoverer.search", DISC + ":AirTouchDiscoverer.__init__"],
